@@ -56,7 +56,15 @@ def _is_prime(n):
         else:
             return False
     return True
-for _k in ("GG130", "GG256", "GG384", "GG512"):
+C["MI200"] = 1606938044258990275541962092341162602522202993782792835301301
+C["MI208"] = 411376139330301510538742295639337626245683966408394965837151957
+C["MI216"] = 105312291668557186697918027683670432318895095400549111254310977159
+C["MI224"] = 26959946667150639794667015087019630673637144422540572481103610248853
+C["MI232"] = 6901746346790563787434755862277025452451108972170386555162524223798631
+C["MI240"] = 1766847064778384329583297500742918515827483896875618958121606201292619309
+C["MI248"] = 452312848583266388373324160190187140051835877600158453279131187530910662419
+C["MI241"] = 1766847064778384329583297500742918515827483896875618958121606201292619891
+for _k in ("GG130", "GG256", "GG384", "GG512", "MI200", "MI208", "MI216", "MI224", "MI232", "MI240", "MI248", "MI241"):
     assert _is_prime(C[_k]), _k
 # split_vartime correction thresholds documented in src/backend/mod.rs:
 # "about 1.73*2^253" = floor(2^254/(2/sqrt(3))) = floor(sqrt(3)*2^253), and "1.73*2^255"
